@@ -314,13 +314,24 @@ def derivedKey : DContent → Option Nat
   | .txs l => l.head?.map (fun t => 3 * t.owner + 1)
   | .reg id _ _ => some (3 * id + 2)
 
+/-- payee ids 998 / 999 stand for claimed peer-id bytes that do not decode (empty / `[0xFF,0xFF,0xFF]`) -/
+def undec (q : QuoteD) : Bool := decide (998 ≤ q.payee)
+
 def vecOf (p : PayD) : PayVec :=
-  { sigs := p.quotes.all (fun q => q.sig && q.signer == q.payee)
+  { -- every quote is validly signed by the node it claims to come from; an undecodable claimed id cannot be
+    -- checked and counts as a failure (`verify_for` returns false on it)
+    sigs := p.quotes.all (fun q => !undec q && q.sig && q.signer == q.payee)
     selfPayee := p.quotes.any (fun q => q.payee == 0)
-    close := p.quotes.all (fun q => p.close.contains q.payee)
+    -- `payees()` drops undecodable ids, so the closeness test never sees them
+    close := p.quotes.all (fun q => undec q || p.close.contains q.payee)
     fresh := p.quotes.all (·.fresh)
     chain := p.quotes.length == 3 && (!chainFailsOnInvalid || p.quotes.all (·.valid))
     qaddr := p.quotes.all (fun q => q.signer != 0 || q.content) }
+
+/-- `SwarmDriver::get_closest_k_value_local_peers` (the answer to `GetClosestKLocalPeers`): this node (id 0)
+followed by the routing-table peers in order of increasing distance `ps`, cut at `K_VALUE` entries in all. -/
+def closeSet (ps : List Nat) : List Nat :=
+  if closeCutAfterChain then (0 :: ps).take kValue else 0 :: ps.take kValue
 
 /-- amount reported with the payment notice: `amountPaid` summed over this node's quotes -/
 def rewardOf (p : PayD) : Nat :=
